@@ -105,10 +105,10 @@ package core
 // the listing reports for that element, dkey the content key a valid name is
 // recorded under. A name that is not valid UTF-8 is only collected in the
 // first loop; the second loop records each collected name under a derivative
-// key (esckey, extended by the third loop until it is no key of the map yet).
+// key (the name with invalid sequences replaced plus " (non-UTF-8)", extended
+// by the third loop until it is no key of the map yet).
 //@ spec dname(dc, i) string = dc[i].Name
 //@ spec dkey(s, dc, i) string = s.recomposeUnicode ? nfc(dc[i].Name) : dc[i].Name
-//@ spec esckey(dc, i) string = utf8fix(dc[i].Name, "\ufffd") + " (non-UTF-8)"
 //@ pred supportedtype(m) = (m & filesystem.ModeTypeMask) == filesystem.ModeTypeDirectory || (m & filesystem.ModeTypeMask) == filesystem.ModeTypeFile || (m & filesystem.ModeTypeMask) == filesystem.ModeTypeSymbolicLink
 
 //@ func (*scanner).directory
